@@ -64,6 +64,11 @@ func execCfidx(f []string) string {
 	if !indexers.CfIndexInitialized(db) {
 		return "err:notinit"
 	}
+	// the Indexer interface accessors
+	if !idx.NeedsInputs() || idx.Init() != nil || string(idx.Key()) != "cfindexparentbucket" ||
+		idx.Name() != "committed filter index" {
+		return "err:indexer"
+	}
 	var blocks []*btcutil.Block
 	var last chainhash.Hash
 	for i, spec := range strings.Split(f[2], "|") {
@@ -143,6 +148,10 @@ func execCfidx(f []string) string {
 	_, e6 := idx.FilterHashByBlockHash(hashes[0], wire.FilterType(255))
 	if e4 != nil && e5 != nil && e6 != nil {
 		t1 = "err:type"
+	}
+	// without an index manager there is no tip entry: DropCfIndex must be a no-op without error
+	if err := indexers.DropCfIndex(db, nil); err != nil || !indexers.CfIndexInitialized(db) {
+		return "err:drop"
 	}
 	return strings.Join(out, "|") + " t1=" + t1
 }
